@@ -9,7 +9,7 @@ from hgv import gen
 from hgv import tsmodel as tm
 from hgv.runner import Result, Viol
 from hgv.trace import Trace
-from hgv.worker import HarnessError
+from hgv.worker import HarnessError, Rejected
 from props.c05 import tree_value
 
 ID = "C10"
@@ -90,7 +90,12 @@ def case(draw, tier):
     opts = {"cancel": True, "multi": True, "no_rewrite": True, "grow": draw(st.integers(0, 3)) == 0, "keys": draw(st.sampled_from([3, 6, 10]))}
     script = draw(tm.history(("TSD", "int", ("TS", "int")), start, horizon, opts, max_cycles=14 if big else 8))
     b_script = draw(gen.int_script(start, end - 1, max_size=5)) if use_b else None
-    return {"start": start, "end": end, "F": F, "use_key": use_key, "use_b": use_b, "script": script, "b_script": b_script, "flags": sorted(flags)}
+    # optional second multiplexed dictionary: its keys are a subset of the first one's, appear at or after them (until
+    # then the child's input is a phantom, i.e. invalid) and leave together with them
+    d2 = None
+    if draw(st.integers(0, 2)) == 0:
+        d2 = {"lag": draw(st.integers(0, 3)), "skip_mod": draw(st.integers(2, 4))}
+    return {"start": start, "end": end, "F": F, "use_key": use_key, "use_b": use_b, "script": script, "b_script": b_script, "flags": sorted(flags), "d2": d2}
 
 
 def strategy(tier):
@@ -127,23 +132,54 @@ def check(case, ctx) -> Result:
     res = Result()
     start, end = case["start"], case["end"]
     F = case["F"]
-    args = [{"fn": "F"}, {"ts": "d"}] + ([{"ts": "bsrc"}] if case["use_b"] else [])
+    lts = lifetimes(case["script"], end)
+    d2 = case.get("d2")
+    d2_script, y_ticks = None, {}
+    if d2:
+        # derive the second dictionary's history from the first: key k (if k % skip_mod != 0) enters d2 `lag` cycles after
+        # it entered d1 with value 100+k, is updated whenever d1's element ticks later, and is erased with d1's key
+        times = sorted(t for t, _ in case["script"])
+        by_t = {}
+        for i, (k, ta, trm, xs) in enumerate(lts):
+            if k % d2["skip_mod"] == 0:
+                continue
+            later = [t for t in times if t >= ta and (trm is None or t < trm)]
+            if len(later) <= d2["lag"]:
+                continue
+            t_in = later[d2["lag"]]
+            ys = [(t_in, 100 + k)] + [(t, 200 + v) for (t, v) in xs if t > t_in]
+            y_ticks[i] = ys
+            for t, v in ys:
+                by_t.setdefault(t, []).append(["set", k, v])
+            if trm is not None:
+                by_t.setdefault(trm, []).append(["erase", k])
+        d2_script = [[t, [{"k": "D", "ops": ops}]] for t, ops in sorted(by_t.items())]
+    subs = {"F": F}
+    fname = "F"
+    if d2:
+        n = len(F["params"])
+        subs["F2"] = {"params": F["params"] + ["TS[int]"], "names": F["names"] + ["yy"], "out": "TS[int]", "ret": "comb", "stmts": [
+            {"id": "inner", "op": "inline", "sub": "F", "ins": [{"arg": j} for j in range(n)]},
+            {"id": "comb", "op": "node", "ins": ["inner", {"arg": n}], "out": "TS[int]", "fn": "sum", "valid": [0], "coef": [1, 1], "log_inputs": False}]}
+        fname = "F2"
+    args = [{"fn": fname}, {"ts": "d"}] + ([{"ts": "bsrc"}] if case["use_b"] else []) + ([{"ts": "d2"}] if d2 else [])
     stmts = [{"id": "d", "op": "src", "schema": "TSD[int,TS[int]]", "script": case["script"]}]
+    if d2:
+        stmts.append({"id": "d2", "op": "src", "schema": "TSD[int,TS[int]]", "script": d2_script})
     if case["use_b"]:
         stmts.append({"id": "bsrc", "op": "src", "schema": "TS[int]", "script": case["b_script"]})
     stmts += [{"id": "m", "op": "op", "name": "map_", "args": args, "has_out": True},
               {"id": "rec", "op": "node", "ins": ["m"], "deep": True, "valid": []}]
-    prog = {"start": start, "end": end, "stmts": stmts, "subs": {"F": F}}
+    prog = {"start": start, "end": end, "stmts": stmts, "subs": subs}
     resp = ctx.run(prog)
     if resp.get("crash"):
         res.violations.append(Viol("engine_crash", f"map_ run: worker died {resp.get('signal')} {resp.get('stderr', '')[-500:]}"))
         return res
     if not resp.get("built"):
-        raise HarnessError(f"C10 generator produced a program the tree rejects: {resp.get('error')}")
+        raise Rejected(f"C10 generator produced a program the tree rejects: {resp.get('error')}")
     if resp.get("error"):
         res.violations.append(Viol("run_failed", f"map_ run threw: {resp['error']}"))
         return res
-    lts = lifetimes(case["script"], end)
     # ---- solo program: one inlined copy of F per (key, lifetime)
     b_ticks = [(t, ops[-1]["v"]) for t, ops in (case["b_script"] or [])]
     solo = []
@@ -160,11 +196,14 @@ def check(case, ctx) -> Result:
             sc = ([[ta, [{"k": "set", "v": cur[-1]}]]] if cur else []) + [[t, [{"k": "set", "v": v}]] for t, v in b_ticks if ta < t < hi]
             solo.append({"id": f"b{i}", "op": "src", "schema": "TS[int]", "script": sc})
             ins.append(f"b{i}")
-        solo.append({"id": f"f{i}", "op": "inline", "sub": "F", "ins": ins})
+        if d2:
+            solo.append({"id": f"y{i}", "op": "src", "schema": "TS[int]", "script": [[t, [{"k": "set", "v": v}]] for t, v in y_ticks.get(i, []) if ta <= t < hi]})
+            ins.append(f"y{i}")
+        solo.append({"id": f"f{i}", "op": "inline", "sub": fname, "ins": ins})
         solo.append({"id": f"r{i}", "op": "node", "ins": [f"f{i}"]})
     exp_streams = {}
     if lts:
-        sresp = ctx.run({"start": start, "end": end, "stmts": solo, "subs": {"F": F}})
+        sresp = ctx.run({"start": start, "end": end, "stmts": solo, "subs": subs})
         if sresp.get("crash") or not sresp.get("built") or sresp.get("error"):
             raise HarnessError(f"C10 solo program failed: {sresp.get('error') or sresp.get('signal')}")
         st_ = Trace(sresp["trace"])
@@ -248,5 +287,7 @@ def check(case, ctx) -> Result:
         res.labels.append("key_consuming")
     if case["use_b"]:
         res.labels.append("broadcast")
+    if d2:
+        res.labels.append("second_multiplexed_dict")
     res.summary = {"lifetimes": [(k, ta, trm) for k, ta, trm, _ in lts][:12], "flags": case["flags"]}
     return res
